@@ -1,6 +1,6 @@
 use super::RemovalEvaluator;
 use crate::element_parser::Element;
-use chrono::{DateTime, Local};
+use chrono::{DateTime, Local, NaiveDateTime};
 
 #[derive(Debug, PartialEq, Clone)]
 pub struct TimeLimitedEvaluator {
@@ -17,6 +17,11 @@ impl RemovalEvaluator for TimeLimitedEvaluator {
         }
 
         let mut expires_str = expires_attr.unwrap().value.unwrap().to_string();
+        // The value must be a complete date and time on its own and the offset a complete
+        // offset: a piece of one must not complete the other ("... +09" and ":00").
+        if NaiveDateTime::parse_from_str(&expires_str, "%Y-%m-%d %H:%M:%S").is_err() {
+            return false;
+        }
         expires_str.push(' ');
         expires_str.push_str(self.time_offset.as_str());
         let expires = DateTime::parse_from_str(&expires_str, "%Y-%m-%d %H:%M:%S %z");
